@@ -80,9 +80,7 @@ def parse_zl(d):
 
 # ------------------------------------------------------------------ generators under test
 def size_lists(tier, big=False):
-    """the property's quantifier (quick: every size of it for the cheap generators, a spread for the
-    expensive ones; thorough: all; big=True: the search's enlarged ranges)"""
-    q = tier == "quick"
+    """the property's quantifier, all of it in both tiers (it is cheap); big=True: the search's enlarged ranges"""
     if big:
         return dict(honeycomb=list(range(1, 23)), hso=list(range(1, 11)),
                     tri=[(a, b) for a in range(1, 8) for b in range(1, 8)], tri_scalar=list(range(1, 8)),
@@ -592,25 +590,6 @@ def run(ctx):
                     "non-trivial = distinct (generator, size) inside the quantifier, or a distinct tiled cell with at least one boundary-crossing edge")
     validate_translator(ctx)
     cases = generator_cases(ctx.tier)
-    if ctx.tier == "quick":
-        # the expensive end of the quantifier is sampled in the quick tier (all of it in thorough)
-        keep = []
-        for c in cases:
-            a = c["args"]
-            if c["name"] in ("honeycomb_lattice",) and a[0] > 9 and a[0] not in (12, 16):
-                continue
-            if c["name"] == "make_honeycomb" and a[0] > 6 and a[0] != 12:
-                continue
-            if c["name"] == "hex_square_oct_lattice" and a[0] in (6, 7):
-                continue
-            if c["name"] == "square_lattice" and a[0] > 5 and a[1] > 5 and (a[0], a[1]) not in ((8, 8), (6, 8), (8, 7)):
-                continue
-            if c["name"] in ("single_plaquette", "higher_coordination_number_example") and a[0] > 12 and a[0] % 4 not in (0, 3):
-                continue
-            if c["name"] == "n_ladder" and a[0] > 10 and a[0] % 3 != 0:
-                continue
-            keep.append(c)
-        cases = keep
     evaluate_generators(ctx, cases, "K(generators)")
     evaluate_tilings(ctx, unit_cells(ctx.tier, ctx.seed), ALL_SIZES, "K(tile)", 40 if ctx.tier == "quick" else 300)
 
